@@ -69,6 +69,10 @@ func reencodings(tx []byte) []encoding {
 		out = append(out, encoding{"number-form", bytes.Replace(tx, []byte(`"gas":`), []byte(`"gas":0`), 1)})
 		// a field of the wrong JSON type: the decoder reports an error but has filled in everything else,
 		// and the field keeps its zero value — the same signed content when the original value was zero
+		// the characters Go's encoder escapes (& < >), written literally
+		if un := []byte(strings.NewReplacer(`\u0026`, "&", `\u003c`, "<", `\u003e`, ">").Replace(string(tx))); !bytes.Equal(un, tx) {
+			out = append(out, encoding{"html-escapes-written-literally", un})
+		}
 		out = append(out, encoding{"wrong-type-memo-number", bytes.Replace(tx, append([]byte(`"memo":`), m["memo"]...), []byte(`"memo":5`), 1)})
 		out = append(out, encoding{"wrong-type-memo-object", bytes.Replace(tx, append([]byte(`"memo":`), m["memo"]...), []byte(`"memo":{"a":1}`), 1)})
 		out = append(out, encoding{"wrong-type-extra-signature", bytes.Replace(tx, []byte(`"signatures":[`), []byte(`"signatures":[7,`), 1)})
@@ -79,6 +83,11 @@ func reencodings(tx []byte) []encoding {
 			cp := *st
 			cp.Signatures = append(append([]action.Signature{}, st.Signatures...), st.Signatures[0])
 			out = append(out, encoding{"surplus-signature-copy", cp.SignedBytes()})
+			// bytes appended to the first signer's public key
+			cp4 := *st
+			cp4.Signatures = append([]action.Signature{}, st.Signatures...)
+			cp4.Signatures[0].Signer.Data = append(append([]byte{}, st.Signatures[0].Signer.Data...), 0x00, 0x01)
+			out = append(out, encoding{"signer-key-bytes-appended", cp4.SignedBytes()})
 			// bytes appended to the first signature (what a device's status word would look like)
 			cp3 := *st
 			cp3.Signatures = append([]action.Signature{}, st.Signatures...)
@@ -173,7 +182,8 @@ func sameSignedContent(a, b []byte) bool {
 	for i := range sa.Signatures {
 		// (the original signature bytes, possibly followed by more: whether that still passes the signature
 		// check is the node's business; if it does, it is the same signed transaction once more)
-		if !bytes.HasPrefix(sb.Signatures[i].Signed, sa.Signatures[i].Signed) || !sa.Signatures[i].Signer.Equal(sb.Signatures[i].Signer) {
+		// (likewise the signer's key bytes, possibly followed by more)
+		if !bytes.HasPrefix(sb.Signatures[i].Signed, sa.Signatures[i].Signed) || sa.Signatures[i].Signer.KeyType != sb.Signatures[i].Signer.KeyType || !bytes.HasPrefix(sb.Signatures[i].Signer.Data, sa.Signatures[i].Signer.Data) {
 			return false
 		}
 	}
@@ -372,6 +382,12 @@ func checkC05(tier string) int {
 			u := wm.w.Users[2%len(wm.w.Users)]
 			tx := txb.Tx(txb.Send(u.Addr, wm.w.Users[1].Addr, "OLT", fmt.Sprint(4000+wm.h)), txb.DefaultFee(), "", u)
 			bases = append(bases, hist.TxSpec{Kind: "SEND", Bytes: tx, Note: "transfer with an empty memo", Signers: []string{u.Addr.String()}})
+		}
+		// a transfer whose memo holds characters the encoder escapes
+		{
+			u := wm.w.Users[2%len(wm.w.Users)]
+			tx := txb.Tx(txb.Send(u.Addr, wm.w.Users[1].Addr, "OLT", fmt.Sprint(4200+wm.h)), txb.DefaultFee(), fmt.Sprintf("R&D <c05-%d>", wm.h), u)
+			bases = append(bases, hist.TxSpec{Kind: "SEND", Bytes: tx, Note: "transfer with a memo of escaped characters", Signers: []string{u.Addr.String()}})
 		}
 		// a transfer signed the hardware-wallet way (ed25519 signature over a digest, prefixed with its name)
 		{
